@@ -14,7 +14,14 @@
    LoadNeededParTrace.tla (all invariants in every state).  A second, protocol-independent TLC pass over a
    rejected execution (callback layer) decides AtMostOnce / BudgetOK / NoSameThreadConcurrent /
    ValueAtItsPoint from what the model callback saw.
+   Scenarios: seeded random mix of grid families (local polynomial rules, wavelet, global, sequence, Fourier), 1..8
+   workers, batch sizes, budgets below / equal / above the pool, tolerance reached before the budget, preloaded
+   grids (budget below the loaded points), initial guess on / off, plus fixed corner cases and a targeted family
+   (6-8 workers + stable refinement: children finish before their parents).
 3. Binding self-test on every run: dropping / corrupting one event of an accepted trace must be rejected.
+4. `./check C18 --selftest`: mutants of the implementation in a scratch copy of the sources outside /repo and
+   /verif (the two repaired defects reverted, job handed out twice, lost wake-up, wrong thread id, result
+   buffer of another worker, check-out without marking) must each end in a VIOLATION.
 
 Decision rule for a rejected concurrent trace (documented in the evidence):
   * the callback layer violates a named invariant (e.g. budget exceeded)  -> reported at once;
@@ -129,7 +136,7 @@ def construct_scenario(rnd, mode):
             s["dims"] = rnd.choice([1, 3])
             if s["dims"] == 3:
                 s["depth"] = min(s["depth"], 1)
-                s["limit"] = min(s["limit"], 2)
+                s["limit"] = min(s["limit"], 1 if fam == "wavelet" else 2)     # keeps the pool below ~130 points
         kind = rnd.choice(["tiny", "tiny", "workers", "mid", "mid", "above"])
     else:
         s["depth"] = rnd.choice([0, 1, 1, 2])
@@ -286,7 +293,7 @@ def run_driver(drv, lines, base, hang_ms=HANG_MS):
         part += 1
         sp, tp = "%s.p%d.scen" % (base, part), "%s.p%d.ndjson" % (base, part)
         open(sp, "w").write("\n".join(todo) + "\n")
-        p = vf.sh([drv, sp, tp, str(hang_ms)], timeout=hang_ms / 1000.0 * 2 + 120 + 2 * len(todo))
+        p = vf.sh([drv, sp, tp, str(hang_ms)], timeout=hang_ms / 1000.0 * 16 + 120 + 2 * len(todo))
         rows = vf.read_ndjson(tp) if os.path.exists(tp) else []
         ex = split_execs(rows)
         if p.returncode == 0 and len(ex) == len(todo):
@@ -353,7 +360,7 @@ def examine(ctx, drv, kind, pairs, base, stats, rerun=True):
           ctx.report(sig,
                    "recorded %s execution is not a behaviour of the specification: first unmatched event (line %d) %s; %s; %s"
                    % (mode, rej["line"], json.dumps(rej["event"]), rej["what"], why),
-                   {"scenario": line, "kind": kind, "trace": ex[:rej["line"] + 3], "full_trace_len": len(ex), "tlc": rej["tlc"],
+                   {"scenario": line, "kind": kind, "trace": ex, "rejected_line": rej["line"], "tlc": rej["tlc"],
                     "how": "harness/parconstruct_trace <scenario file> out.ndjson ; TRACE=out.ndjson tlc -workers 1 -config spec/%s spec/%s" % (SPECS[kind][1], SPECS[kind][0])})
 
 
@@ -570,6 +577,16 @@ def replay(ctx, path):
         return 1
     kind = rp.get("kind", "pc")
     bad = 0
+    # 1. the recorded execution itself: TLC's verdict on it is deterministic
+    if rp.get("trace"):
+        res, _, _ = validate_execs(kind, [rp["trace"]], os.path.join(wd, "recorded"))
+        if res[0] is not None:
+            clause = callback_layer(kind, rp["trace"], os.path.join(wd, "recorded")) if (res[0]["event"] or {}).get("e") != "Hang" else None
+            print("recorded execution: rejected at line %d %s %s" % (res[0]["line"], json.dumps(res[0]["event"])[:300], clause or res[0]["what"]))
+            bad += 1
+        else:
+            print("recorded execution: accepted by the current specification")
+    # 2. the same scenario again on the current tree (same seed; the thread schedule is not reproducible)
     for t in range(RERUNS):
         pairs = run_driver(drv, [rp["scenario"]], os.path.join(wd, "r%d" % t))
         res, _, _ = validate_execs(kind, [pairs[0][1]], os.path.join(wd, "r%d" % t))
@@ -582,7 +599,7 @@ def replay(ctx, path):
     if bad:
         print("VIOLATION property=C18 replay=%s" % path)
         return 1
-    print("not reproduced in %d runs" % RERUNS)
+    print("not reproduced (recorded execution accepted, %d fresh runs accepted)" % RERUNS)
     return 0
 
 
